@@ -60,93 +60,55 @@ def run(repo, rep, tier):
     parse = repo.func('ssh2_kex', 'SSH2_Kex.parse')
     rep.saw(parse)
 
-    # ---- rule 1: parse-slot agreement -------------------------------------------------------------------------------
-    reads = [n for n in parse.body if isinstance(n, ast.Assign) and isinstance(n.value, ast.Call) and unparse(n.value.func) == 'buf.read_list' and isinstance(n.targets[0], ast.Name)]
-    rep.check('slots', 'SSH2_Kex.parse reads ten name-lists', len(reads) == 10, parse, 'SSH2_Kex.parse reads %d name-lists' % len(reads))
-    # reads must be consecutive statements in source order, preceded by the 16-byte cookie
-    order = [parse.body.index(r) for r in reads]
-    rep.check('slots', 'the ten reads are consecutive (no other buffer read between them)', order == list(range(order[0], order[0] + len(order))) if order else False, parse, 'name-list reads are interleaved with other statements')
-    ck = [n for n in parse.body if isinstance(n, ast.Assign) and isinstance(n.value, ast.Call) and unparse(n.value.func) == 'buf.read']
-    rep.check('slots', 'a 16-byte cookie precedes the lists', len(ck) == 1 and unparse(ck[0].value.args[0]) == '16' and order and parse.body.index(ck[0]) == order[0] - 1, ck[0] if ck else parse, 'cookie read changed')
-    kinit, kp2f, kf2g = ctor_fields(kex_cls)
-    pinit, pp2f, pf2g = ctor_fields(party_cls)
-    ctor = [n for n in walk_no_nested(parse) if isinstance(n, ast.Call) and isinstance(n.func, ast.Name) and n.func.id == 'cls']
-    parties = {n.targets[0].id: n.value for n in parse.body if isinstance(n, ast.Assign) and isinstance(n.value, ast.Call) and call_name(n.value) == 'SSH2_KexParty'}
-    if len(ctor) != 1 or len(parties) != 2:
-        raise AnalysisError('SSH2_Kex.parse: constructor calls not recognised')
-    kb = bind_args(ctor[0], kinit, skip_self=True)
-
-    def accessor_of(var):
-        # directly a constructor argument?
-        for par, a in kb.items():
-            if isinstance(a, ast.Name) and a.id == var:
-                f = kp2f.get(par)
-                g = kf2g.get(f, [])
-                return g[0] if len(g) == 1 else None
-        for pv, pcall in parties.items():
-            pb = bind_args(pcall, pinit, skip_self=True)
-            for par, a in pb.items():
-                if isinstance(a, ast.Name) and a.id == var:
-                    f = pp2f.get(par)
-                    g = pf2g.get(f, [])
-                    if len(g) != 1:
-                        return None
-                    for kpar, ka in kb.items():
-                        if isinstance(ka, ast.Name) and ka.id == pv:
-                            kf = kp2f.get(kpar)
-                            kg = kf2g.get(kf, [])
-                            return '%s.%s' % (kg[0], g[0]) if len(kg) == 1 else None
-        return None
-    for i, r in enumerate(reads[:10]):
-        acc = accessor_of(r.targets[0].id)
-        rep.check('slots', 'name-list %d of the KEXINIT reaches accessor %s' % (i + 1, SSH2_SLOTS[i]), acc == SSH2_SLOTS[i], r,
-                  'the %s name-list of the packet surfaces as kex.%s (RFC 4253 7.1 order expects kex.%s)' % (['1st', '2nd', '3rd', '4th', '5th', '6th', '7th', '8th', '9th', '10th'][i], acc, SSH2_SLOTS[i]),
-                  sample={'rule': 'slots', 'chain': '%s -> %s' % (r.targets[0].id, acc)})
-    # getters are properties (attribute reads elsewhere rely on it)
-    for c in (kex_cls, party_cls):
-        for s in c.body:
-            if isinstance(s, ast.FunctionDef) and s.name in ('kex_algorithms', 'key_algorithms', 'client', 'server', 'encryption', 'mac', 'compression', 'languages'):
-                rep.check('slots', '%s.%s is a property' % (c.name, s.name), any(unparse(d) == 'property' for d in s.decorator_list), s, '%s.%s is no longer a property' % (c.name, s.name))
+    # ---- rule 1: parse-slot agreement, by interpretation (props/_messages.py) ------------------------------------------------------------------------
+    # parse() is interpreted on a stream of read tokens, the constructors and property getters of SSH2_Kex / SSH2_KexParty are interpreted on what it
+    # passes them: the packet must be read as cookie(16), ten name-lists, a boolean, a uint32, and the i-th name-list must be what the accessor of the
+    # i-th RFC 4253 7.1 field returns -- however parse() is written (one statement per list, a comprehension with slices, star arguments)
+    from props import _messages
+    obj, reads, holder = _messages.parse_model(repo, 'ssh2_kex', 'SSH2_Kex', [('ssh2_kexparty', 'SSH2_KexParty')])
+    ops = [(op, size) for op, size, tok in reads]
+    rep.check('slots', 'SSH2_Kex.parse reads cookie(16), ten name-lists, first_kex_packet_follows, reserved', ops == [('read', 16)] + [('read_list', None)] * 10 + [('read_bool', None), ('read_int', None)], parse,
+              'SSH2_Kex.parse reads %s' % [o for o, _ in ops], sample={'rule': 'slots', 'reads': [o for o, _ in ops]})
+    lists = [tok for op, size, tok in reads if op == 'read_list']
+    ordinal = ['1st', '2nd', '3rd', '4th', '5th', '6th', '7th', '8th', '9th', '10th']
+    for i, slot in enumerate(SSH2_SLOTS):
+        got = _messages.accessor(holder, obj, slot)
+        rep.evals()
+        where = [ordinal[k] for k, t in enumerate(lists) if t == got]
+        rep.check('slots', 'name-list %d of the KEXINIT reaches accessor %s' % (i + 1, slot), i < len(lists) and got == lists[i], parse,
+                  'kex.%s is the %s name-list of the packet (RFC 4253 7.1 order expects the %s)' % (slot, where[0] if where else 'value %r, not a' % (got,), ordinal[i]),
+                  stmt='KEXINIT slot %s' % slot, sample={'rule': 'slots', 'chain': '%s -> %s' % (lists[i] if i < len(lists) else '?', slot)})
     # SSH-1
     p1 = repo.func('ssh1_publickeymessage', 'SSH1_PublicKeyMessage.parse')
     c1 = repo.cls('ssh1_publickeymessage', 'SSH1_PublicKeyMessage')
     rep.saw(p1)
-    i1, p2f1, f2g1 = ctor_fields(c1)
-    ints = [n for n in p1.body if isinstance(n, ast.Assign) and isinstance(n.value, ast.Call) and unparse(n.value.func) == 'buf.read_int']
-    names = [n.targets[0].id for n in ints]
-    ctor1 = [n for n in walk_no_nested(p1) if isinstance(n, ast.Call) and isinstance(n.func, ast.Name) and n.func.id == 'cls']
-    ok = len(ints) == 5 and len(ctor1) == 1
-    if ok:
-        b1 = bind_args(ctor1[0], i1, skip_self=True)
-        last3 = names[-3:]
-        got = {}
-        for par, a in b1.items():
-            if isinstance(a, ast.Name) and a.id in last3:
-                f = p2f1.get(par)
-                got[last3.index(a.id)] = f2g1.get(f, [None])[0]
-        ok = got == {0: 'protocol_flags', 1: 'supported_ciphers_mask', 2: 'supported_authentications_mask'}
-    rep.check('slots', 'SSH-1: the last three 32-bit fields are protocol flags, cipher mask, authentication mask', ok, p1, 'SSH-1 mask slots changed: %s' % (got if ok is False and len(ints) == 5 else names))
-
-    def decode_loop(prop, mask_field, table, start):
+    from sa.consteval import ConstEnv
+    ce = ConstEnv(repo)
+    consts = {'SSH1.CIPHERS': list(ce.lookup('ssh1', 'SSH1.CIPHERS')), 'SSH1.AUTHS': list(ce.lookup('ssh1', 'SSH1.AUTHS'))}
+    obj1, reads1, holder1 = _messages.parse_model(repo, 'ssh1_publickeymessage', 'SSH1_PublicKeyMessage', extra_env=consts)
+    ints = [tok for op, size, tok in reads1 if op == 'read_int']
+    got3 = [_messages.accessor(holder1, obj1, a) for a in ('protocol_flags', 'supported_ciphers_mask', 'supported_authentications_mask')]
+    rep.check('slots', 'SSH-1: the last three 32-bit fields are protocol flags, cipher mask, authentication mask', len(ints) == 5 and got3 == ints[-3:], p1, 'SSH-1 mask slots changed: accessors yield %s, the packet ends with %s' % (got3, ints[-3:]))
+    from sa.objmodel import Obj
+    for prop, field_acc, table, start in (('supported_ciphers', 'supported_ciphers_mask', consts['SSH1.CIPHERS'], 0), ('supported_authentications', 'supported_authentications_mask', consts['SSH1.AUTHS'], 1)):
         f = repo.func('ssh1_publickeymessage', 'SSH1_PublicKeyMessage.' + prop)
         rep.saw(f)
-        loops = [n for n in walk_no_nested(f) if isinstance(n, ast.For)]
-        ok = len(loops) == 1
-        if ok:
-            lp = loops[0]
-            iv = unparse(lp.target)
-            want_iter = 'range(len(%s))' % table if start == 0 else 'range(%d, len(%s))' % (start, table)
-            ok = unparse(lp.iter) == want_iter
-            ifs = [s for s in lp.body if isinstance(s, ast.If)]
-            ok = ok and len(ifs) == 1 and len(lp.body) == 1 and unparse(ifs[0].test) == 'self.%s & 1 << %s != 0' % (mask_field, iv)
-            if ok:
-                app = [n for n in walk_no_nested(ifs[0]) if isinstance(n, ast.Call) and isinstance(n.func, ast.Attribute) and n.func.attr == 'append']
-                ok = len(app) == 1 and '%s[%s]' % (table, iv) in unparse(app[0].args[0]) and not ifs[0].orelse
-                rets = [r for r in walk_no_nested(f) if isinstance(r, ast.Return)]
-                ok = ok and len(rets) == 1 and unparse(rets[0].value) == unparse(app[0].func.value)
-        rep.check('slots', 'SSH-1 %s: bit i of %s selects %s[i], in ascending order' % (prop, mask_field, table), ok, f, 'decode loop of %s changed' % prop)
-    decode_loop('supported_ciphers', '__supported_ciphers_mask', 'SSH1.CIPHERS', 0)
-    decode_loop('supported_authentications', '__supported_authentications_mask', 'SSH1.AUTHS', 1)
+        # which private field does the mask accessor return?
+        mfield = [k for k, v in obj1.fields.items() if v == _messages.accessor(holder1, obj1, field_acc)]
+        bad = None
+        masks = [0, (1 << 32) - 1, 0x55555555, 0xAAAAAAAA, 0x12345678] + [1 << b for b in range(0, 32)]
+        for mask in masks if len(mfield) == 1 else []:
+            o2 = Obj(obj1.cls, dict(obj1.fields, **{mfield[0]: mask}))
+            try:
+                got = holder1['attr'](o2, prop, None)[1]
+            except Exception as ex:      # noqa: BLE001 -- Unknown from the interpreter
+                raise AnalysisError('SSH-1 %s cannot be interpreted: %s' % (prop, ex))
+            rep.evals()
+            want = [table[i] for i in range(start, len(table)) if mask & (1 << i)]
+            if got != want and bad is None:
+                bad = (mask, got, want)
+        rep.check('slots', 'SSH-1 %s: bit i of the mask selects entry i of the table, in ascending order (%d masks)' % (prop, len(masks)), len(mfield) == 1 and bad is None, f,
+                  'SSH-1 %s decodes mask 0x%08x as %s, expected %s' % ((prop,) + bad) if bad else 'mask field of %s not identified' % prop)
 
     # ---- rule 2: render provenance (text) ----------------------------------------------------------------------------
     outf = repo.func('ssh_audit', 'output')
@@ -155,137 +117,71 @@ def run(repo, rep, tier):
     bs = repo.func('ssh_audit', 'build_struct')
     rep.saw(outf), rep.saw(oas), rep.saw(oa), rep.saw(bs)
 
-    def local_value(name_node, before_stmt, func):
-        """Value bound to a local name by the closest preceding assignment in the same block (tuple unpack aware)."""
-        blk = None
-        par = before_stmt._parent
-        for fld in ('body', 'orelse'):
-            b = getattr(par, fld, None)
-            if isinstance(b, list) and before_stmt in b:
-                blk = b
-        if blk is None:
-            return None
-        for st in reversed(blk[:blk.index(before_stmt)]):
-            if isinstance(st, ast.Assign):
-                t, v = st.targets[0], st.value
-                if isinstance(t, ast.Name) and t.id == name_node.id:
-                    return v
-                if isinstance(t, ast.Tuple) and isinstance(v, ast.Tuple):
-                    for a, b2 in zip(t.elts, v.elts):
-                        if isinstance(a, ast.Name) and a.id == name_node.id:
-                            return b2
-        return None
-    seen = {}
-    for n in walk_no_nested(outf):
-        if isinstance(n, ast.Call) and call_name(n) == 'output_algorithms':
-            st = n._parent
-            while not isinstance(st, ast.stmt):
-                st = st._parent
-            b = bind_args(n, oas)
-            conds = [(unparse(t), p) for t, p, k in path_condition(n) if k == 'if']
-            proto = 'SSH2' if ('kex is not None', True) in conds else 'SSH1' if ('pkm is not None', True) in conds else None
-            at = b.get('alg_type')
-            atv = local_value(at, st, outf) if isinstance(at, ast.Name) else at
-            cat = atv.value if isinstance(atv, ast.Constant) else None
-            L = strip_identity(b.get('algorithms'))
-            if isinstance(L, ast.Name):
-                lv = local_value(L, st, outf)
-                if lv is None:
-                    defs = [d for d in walk_no_nested(outf) if isinstance(d, ast.Assign) and unparse(d.targets[0]) == L.id]
-                    lv = defs[0].value if len(defs) == 1 else None
-                L = strip_identity(lv) if lv is not None else L
-            key = (proto, cat)
-            want = TEXT_TABLE.get(key)
-            seen[key] = n
-            rep.check('render', 'text section %s/%s is fed by %s' % (proto, cat, want), want is not None and unparse(L) == want, n,
-                      'text section (%s) %s lists %s instead of %s' % (proto, cat, unparse(L), want), sample={'rule': 'render', 'view': 'text', 'category': cat, 'source': unparse(L)})
-            adb = b.get('alg_db')
-            adbv = local_value(adb, st, outf) if isinstance(adb, ast.Name) else adb
-            want_db = 'SSH2_KexDB.get_db()' if proto == 'SSH2' else 'SSH1_KexDB.get_db()'
-            rep.check('render', 'text section %s/%s rated against the %s table' % (proto, cat, proto), adbv is not None and unparse(adbv) == want_db, n, 'section %s/%s uses table %s' % (proto, cat, unparse(adbv) if adbv is not None else '?'))
-            # ---- rule 4: role clause
-            rep.check('role', 'section %s/%s is not selected by the audited role' % (proto, cat), not any('client' in t for t, p in conds), n, 'rendered list depends on the role: %s' % conds)
-    for key in TEXT_TABLE:
-        rep.check('render', 'text view has a section for %s/%s' % key, key in seen, outf, 'text view lacks the %s %s section' % key, stmt='text section %s/%s' % key)
+    # The report function is interpreted (props/_sections.py) for an SSH-2 and an SSH-1 peer, text and JSON mode, server and client audit: the calls that reach
+    # output_algorithms -- written out, driven by a table, with keyword or **mapping arguments -- must be exactly one section per category, each fed by the
+    # accessor of that category and rated against the table of that protocol; the audited role must not select another list.
+    from props import _sections
+    EXPECT = {2: [('kex', ['<kex.kex_algorithms>']), ('key', ['<kex.key_algorithms>']), ('enc', ['<kex.server.encryption>']), ('mac', ['<kex.server.mac>'])],
+              1: [('key', ['ssh-rsa1']), ('enc', ['<pkm.supported_ciphers>']), ('aut', ['<pkm.supported_authentications>'])]}
+    for proto in (2, 1):
+        want_db = '<SSH%d_KexDB.get_db()>' % proto
+        for json_mode in (False, True):
+            for client in (False, True):
+                for res in _sections.run_output(repo, proto, json_mode, client):
+                    rep.evals()
+                    secs = res['sections']
+                    got = [(x['alg_type'], x['algorithms']) for x in secs]
+                    node = secs[0]['node'] if secs else outf
+                    ctx = 'SSH-%d%s%s' % (proto, ', JSON' if json_mode else '', ', client audit' if client else '')
+                    for cat, src in EXPECT[proto]:
+                        mine = [x for x in secs if x['alg_type'] == cat]
+                        rule = 'role' if client else 'render'
+                        rep.check(rule, 'text section %s/%s is fed by %s (%s)' % ('SSH%d' % proto, cat, src[0], ctx), len(mine) == 1 and mine[0]['algorithms'] == src, mine[0]['node'] if mine else outf,
+                                  ('text view lacks the SSH%d %s section (%s)' % (proto, cat, ctx)) if not mine else 'text section (SSH%d) %s lists %s instead of %s (%s)%s' % (proto, cat, [x['algorithms'] for x in mine], src, ctx, ': the rendered list depends on the audited role' if client else ''),
+                                  stmt='text section SSH%d/%s' % (proto, cat), sample={'rule': 'render', 'view': 'text', 'category': cat, 'source': repr(mine[0]['algorithms']) if mine else None})
+                        if mine:
+                            rep.check('render', 'text section SSH%d/%s rated against the SSH-%d table (%s)' % (proto, cat, proto, ctx), repr(mine[0]['alg_db']) == want_db, mine[0]['node'], 'section SSH%d/%s uses table %r' % (proto, cat, mine[0]['alg_db']))
+                    extra = [g for g in got if g[0] not in [c for c, _ in EXPECT[proto]]]
+                    rep.check('render', 'no other algorithm section (%s)' % ctx, not extra and len(got) == len(EXPECT[proto]), node, 'text view has sections %s, expected %s (%s)' % ([g[0] for g in got], [c for c, _ in EXPECT[proto]], ctx), stmt='text sections %s' % ctx)
+                    if json_mode:
+                        rep.check('render', 'the JSON view is built once, from the parsed messages (%s)' % ctx, len(res['json']) == 1 and repr(res['json'][0].get('kex')) == ('<kex>' if proto == 2 else 'None') and repr(res['json'][0].get('pkm')) == ('<pkm>' if proto == 1 else 'None'), outf,
+                                  'output() does not forward the parsed message to build_struct (kex=%r, pkm=%r): the JSON of an SSH-%d audit lists nothing the peer advertised' % (res['json'][0].get('kex') if res['json'] else None, res['json'][0].get('pkm') if res['json'] else None, proto),
+                                  stmt='build_struct(... %s ...)' % ('kex' if proto == 2 else 'pkm'))
     # output_algorithms iterates the list parameter as is
     loops = [n for n in walk_no_nested(oas) if isinstance(n, ast.For)]
     ok = len(loops) == 1 and unparse(strip_identity(loops[0].iter)) == 'algorithms'
     rep.check('order', 'output_algorithms iterates its list parameter unchanged', ok, loops[0] if loops else oas, 'output_algorithms iterates %s' % (unparse(loops[0].iter) if loops else '?'))
 
-    # ---- rule 2: render provenance (JSON) ----------------------------------------------------------------------------
-    for cat, want in JSON_TABLE.items():
-        apps = [n for n in walk_no_nested(bs) if isinstance(n, ast.Call) and isinstance(n.func, ast.Attribute) and n.func.attr == 'append' and unparse(n.func.value) in ("res['%s']" % cat, 'res["%s"]' % cat)]
-        ok = len(apps) == 1
-        if ok:
-            a = apps[0]
-            pc = path_condition(a)
-            fors = [t for t, p, k in pc if k == 'for']
-            ifs = [(unparse(t), p) for t, p, k in pc if k != 'for']
-            src = unparse(strip_identity(fors[-1])) if fors else None
-            rep.check('render', 'JSON list %s is built from %s' % (cat, want), src == want, a, 'JSON %s lists %s instead of %s' % (cat, src, want), sample={'rule': 'render', 'view': 'json', 'category': cat, 'source': src})
-            lpn = a
-            while not isinstance(lpn, ast.For):
-                lpn = lpn._parent
-            lvn = unparse(lpn.target)
-            empty_guard = ('len(%s.strip()) == 0' % lvn, False)
-            extra = [c for c in ifs if c not in (('kex is not None', True), empty_guard)]
-            rep.check('render', 'JSON %s: one entry per advertised name; nothing but empty names is filtered' % cat, not extra, a, 'JSON %s entries are filtered by %s' % (cat, extra))
-            rep.check('render', 'JSON %s: empty names (an empty name-list parses as [\'\']) produce no entry, like in the text report' % cat, empty_guard in ifs, a,
-                      'JSON %s lists an entry for the empty name of an empty (or comma-terminated) name-list, flagged "unknown algorithm", although the peer advertised no such name and the text report shows none' % cat)
-            lp = a
-            while not isinstance(lp, ast.For):
-                lp = lp._parent
-            lv = unparse(lp.target)
-            ent = unparse(a.args[0])
-            edefs = [d for d in walk_no_nested(lp) if isinstance(d, (ast.Assign, ast.AnnAssign)) and unparse(d.targets[0] if isinstance(d, ast.Assign) else d.target) == ent]
-            okn = len(edefs) == 1 and isinstance(edefs[0].value, ast.Dict)
-            if okn:
-                d = dict(zip([k.value for k in edefs[0].value.keys if isinstance(k, ast.Constant)], edefs[0].value.values))
-                okn = 'algorithm' in d and unparse(d['algorithm']) == lv
-            rep.check('render', 'JSON %s: entry names the unmodified element' % cat, okn, a, 'JSON %s entry does not carry the advertised name itself' % cat)
-            init = [d for d in walk_no_nested(bs) if isinstance(d, ast.Assign) and unparse(d.targets[0]) in ("res['%s']" % cat,) and unparse(d.value) == '[]']
-            rep.check('render', 'JSON %s starts empty' % cat, len(init) == 1 and init[0].lineno < lp.lineno, lp, 'JSON %s list not initialised empty before the loop' % cat)
-            for x in walk_no_nested(lp):
-                if isinstance(x, (ast.Break, ast.Continue)):
-                    gd = [(unparse(t), p) for t, p, k in path_condition(x, stop=lp) if k == 'if']
-                    okc = isinstance(x, ast.Continue) and gd == [('len(%s.strip()) == 0' % lv, True)]
-                    rep.check('render', 'JSON %s loop skips nothing but empty names' % cat, okc, x, 'JSON %s loop can skip advertised names (under %s)' % (cat, gd))
-        else:
-            rep.check('render', 'JSON view has a %s list' % cat, False, bs, 'JSON view lacks the %s list (found %d append sites)' % (cat, len(apps)), stmt='json list %s' % cat)
-    # SSH-1 JSON
-    for key, want in (('enc', 'pkm.supported_ciphers'), ('aut', 'pkm.supported_authentications')):
-        d = [n for n in walk_no_nested(bs) if isinstance(n, ast.Assign) and unparse(n.targets[0]) == "res['%s']" % key and not isinstance(n.value, ast.List)]
-        ok = len(d) == 1
-        if ok:
-            v = d[0].value
-            if isinstance(v, ast.Name):
-                vd = [x for x in walk_no_nested(bs) if isinstance(x, ast.Assign) and unparse(x.targets[0]) == v.id and not (isinstance(x.value, ast.Constant) and x.value.value is None)]
-                ok = len(vd) == 1 and unparse(strip_identity(vd[0].value)) == want and [(unparse(t), p) for t, p, k in path_condition(vd[0]) if k == 'if'][-1:] == [('pkm is not None', True)]
-            else:
-                ok = unparse(strip_identity(v)) == want
-        rep.check('render', 'SSH-1 JSON %s is %s' % (key, want), ok, d[0] if d else bs, 'SSH-1 JSON %s is not %s' % (key, want))
-    # the JSON call receives the parsed messages
-    calls = [n for n in walk_no_nested(outf) if isinstance(n, ast.Call) and call_name(n) == 'build_struct']
-    rep.floor('render', 'build_struct call in output', len(calls), 1)
-    for c in calls:
-        b = bind_args(c, bs)
-        rep.check('render', 'JSON view receives the parsed KEXINIT', b.get('kex') is not None and unparse(b['kex']) == 'kex', c, 'build_struct is called without kex=kex')
-        rep.check('render', 'JSON view receives the parsed SSH-1 public key message', b.get('pkm') is not None and unparse(b['pkm']) == 'pkm', c,
-                  'output() does not forward pkm to build_struct: the JSON of an SSH-1 audit has enc/aut = null although the peer advertised ciphers and authentication types',
-                  stmt='build_struct(... pkm ...)')
-    # ---- rule 5: JSON compression / banner ----------------------------------------------------------------------------
-    d = [n for n in walk_no_nested(bs) if isinstance(n, ast.Assign) and unparse(n.targets[0]) == "res['compression']"]
-    rep.check('json-misc', 'JSON compression is kex.server.compression', len(d) == 1 and unparse(strip_identity(d[0].value)) == 'kex.server.compression', d[0] if d else bs, 'JSON compression source changed')
-    bdef = [n for n in walk_no_nested(bs) if isinstance(n, ast.Assign) and unparse(n.targets[0]) == 'banner_str' and not isinstance(n.value, ast.Constant)]
-    rep.check('json-misc', 'JSON banner.raw is str(banner)', len(bdef) == 1 and unparse(bdef[0].value) == 'str(banner)', bdef[0] if bdef else bs, 'JSON banner source changed')
-    resd = [n for n in walk_no_nested(bs) if isinstance(n, (ast.Assign, ast.AnnAssign)) and unparse(n.targets[0] if isinstance(n, ast.Assign) else n.target) == 'res' and isinstance(n.value, ast.Dict)]
-    ok = False
-    if resd:
-        top = dict(zip([k.value for k in resd[0].value.keys], resd[0].value.values))
-        if 'banner' in top and isinstance(top['banner'], ast.Dict):
-            inner = dict(zip([k.value for k in top['banner'].keys], [unparse(v) for v in top['banner'].values]))
-            ok = inner.get('raw') == 'banner_str' and inner.get('software') == 'banner_software' and inner.get('comments') == 'banner_comments' and inner.get('protocol') == 'banner_protocol'
-    rep.check('json-misc', 'JSON banner object carries raw/protocol/software/comments of the parsed banner', ok, resd[0] if resd else bs, 'JSON banner object changed')
+    # ---- rule 2: render provenance (JSON), rule 5: JSON compression / banner -- by interpretation of build_struct (props/_sections.py) -----------------
+    # every parsed list holds two name tokens, an empty and a blank name: the JSON list of a category must hold one entry per non-empty name of that
+    # category's accessor, in order, carrying the name itself; empty names produce no entry (as in the text report); compression and banner are the parsed values
+    for sizes in (False, True):
+        res, lists = _sections.run_build_struct(repo, 2, sizes=sizes)
+        rep.evals()
+        for cat, want in JSON_TABLE.items():
+            src = [x for x in lists[want] if x.strip()]
+            got = res.get(cat)
+            names = [e.get('algorithm') if isinstance(e, dict) else e for e in got] if isinstance(got, list) else None
+            if got is None:
+                rep.check('render', 'JSON view has a %s list' % cat, False, bs, 'JSON view lacks the %s list' % cat, stmt='json list %s' % cat)
+                continue
+            blank = isinstance(names, list) and any(isinstance(n, str) and not n.strip() for n in names)
+            rep.check('render', 'JSON %s: empty names (an empty name-list parses as [\'\']) produce no entry, like in the text report' % cat, not blank, bs,
+                      'JSON %s lists an entry for the empty name of an empty (or comma-terminated) name-list, flagged "unknown algorithm", although the peer advertised no such name and the text report shows none' % cat, stmt='json list %s: empty names' % cat)
+            if blank:
+                names = [n for n in names if not (isinstance(n, str) and not n.strip())]
+            rep.check('render', 'JSON list %s holds one entry per advertised name of %s, in order' % (cat, want), names == src, bs,
+                      'JSON %s lists %s for the advertised %s = %s' % (cat, names, want, src), stmt='json list %s' % cat, sample={'rule': 'render', 'view': 'json', 'category': cat, 'source': want})
+            if isinstance(got, list) and all(isinstance(e, dict) for e in got):
+                okn = all(e.get('notes') == ('notes', e.get('algorithm'), cat) for e in got)
+                rep.check('render', 'JSON %s: the notes of an entry are looked up for that name and category' % cat, okn, bs, 'JSON %s entry notes are looked up with %s' % (cat, [e.get('notes') for e in got][:2]), stmt='json list %s: notes' % cat)
+        rep.check('json-misc', 'JSON compression is kex.server.compression', res.get('compression') == lists['kex.server.compression'], bs, 'JSON compression is %r, the peer advertised %r' % (res.get('compression'), lists['kex.server.compression']), stmt='json compression')
+        b = res.get('banner')
+        rep.check('json-misc', 'JSON banner object carries raw/protocol/software/comments of the parsed banner', b == {'raw': '<str(banner)>', 'protocol': '2.0', 'software': '<banner.software>', 'comments': '<banner.comments>'}, bs,
+                  'JSON banner object is %r' % (b,), stmt='json banner')
+    res1, _l = _sections.run_build_struct(repo, 1)
+    for key, want in (('key', ['ssh-rsa1']), ('enc', ['<pkm.supported_ciphers>']), ('aut', ['<pkm.supported_authentications>'])):
+        rep.check('render', 'SSH-1 JSON %s is %s' % (key, want[0]), res1.get(key) == want, bs, 'SSH-1 JSON %s is %r, expected %s' % (key, res1.get(key), want), stmt='json ssh1 %s' % key)
     # text compression line filters only 'none'
     comp = [n for n in walk_no_nested(outf) if isinstance(n, ast.Assign) and unparse(n.targets[0]) == 'compressions']
     ok = len(comp) == 1 and unparse(comp[0].value) == "[x for x in kex.server.compression if x != 'none']"
@@ -312,33 +208,6 @@ def run(repo, rep, tier):
                 if isinstance(n, ast.Call) and unparse(n.func) == 'Utils.unique_seq' and n.args and d.derived(n.args[0]):
                     rep.check('order', 'no deduplication of a parsed list in %s' % f.name, False, n, 'unique_seq applied to an advertised list')
     rep.floor('order', 'functions scanned for in-place edits', nscan, 100)
-    # per-name renderer: emits for every non-empty name, with the original name
-    rets = [r for r in walk_no_nested(oa) if isinstance(r, ast.Return)]
-    early = [r for r in rets if r is not oa.body[-1]]
-    ok = len(early) == 1 and [(unparse(t), p) for t, p, k in path_condition(early[0])] == [('len(alg_name.strip()) == 0', True)]
-    rep.check('emit', 'the only early return of output_algorithm is the empty-name guard', ok, early[0] if early else oa, 'output_algorithm can return early under %s' % ([(unparse(t), p) for r in early for t, p, k in path_condition(r)]))
-    mem = [n for n in walk_no_nested(oa) if isinstance(n, ast.If) and isinstance(n.test, ast.Compare) and isinstance(n.test.ops[0], ast.In) and 'alg_db[alg_type]' in unparse(n.test.comparators[0])]
-    if mem:
-        m0 = mem[0]
-        then_ok = any(isinstance(s, ast.If) and unparse(s.test) == 'len(texts) == 0' and any('texts.append' in unparse(x) for x in s.body) for s in m0.body)
-        else_ok = any(isinstance(s, ast.Expr) and 'texts.append' in unparse(s) for s in m0.orelse)
-        rep.check('emit', 'every non-empty name gets at least one note line (known: placeholder, unknown: warning)', then_ok and else_ok, m0, 'a name can end up with no line at all')
-    fold = [n for n in walk_no_nested(oa) if isinstance(n, ast.For) and unparse(n.iter) == 'texts']
-    if fold:
-        firsts = [s for s in fold[0].body if isinstance(s, ast.If) and unparse(s.test) == 'first']
-        ok = len(firsts) == 1 and any(isinstance(x, ast.Expr) and isinstance(x.value, ast.Call) and unparse(x.value.func) == 'f' and 'alg_name' in unparse(x.value) for x in firsts[0].body)
-        rep.check('emit', 'the first note line always prints prefix + name', ok, fold[0], 'first line of an algorithm is not always printed with its name')
-        for x in walk_no_nested(fold[0]):
-            if isinstance(x, (ast.Break, ast.Continue)):
-                conds = [(unparse(t), p) for t, p, k in path_condition(x)]
-                rep.check('emit', 'no skip inside the per-note loop', False, x, 'per-note loop can skip lines under %s' % conds)
-    restore = [n for n in walk_no_nested(oa) if isinstance(n, ast.Assign) and unparse(n) == 'alg_name = alg_name_original']
-    save = [n for n in walk_no_nested(oa) if isinstance(n, ast.Assign) and unparse(n) == 'alg_name_original = alg_name']
-    norm = [n for n in walk_no_nested(oa) if isinstance(n, ast.Assign) and unparse(n.targets[0]) == 'alg_name' and 'last_dash' in unparse(n.value)]
-    ok = len(restore) == 1 and len(save) == 1 and len(norm) == 1 and save[0].lineno < norm[0].lineno < restore[0].lineno and fold and restore[0].lineno < fold[0].lineno
-    if ok:
-        ok = [(unparse(t), p) for t, p, k in path_condition(restore[0]) if k == 'if'] == [('alg_name != alg_name_original', True)]
-    rep.check('emit', 'the wildcard-normalised name is only used for the lookup; the advertised name is restored before printing', ok, restore[0] if restore else oa, 'printed name may be the normalised (wildcard) name')
-    sized = [n for n in walk_no_nested(oa) if isinstance(n, ast.Assign) and unparse(n.targets[0]) == 'alg_name_with_size' and not isinstance(n.value, ast.Constant)]
-    ok = bool(sized) and all(isinstance(n.value, ast.BinOp) and isinstance(n.value.right, ast.Tuple) and unparse(n.value.right.elts[0]) == 'alg_name' and n.lineno < (norm[0].lineno if norm else 0) for n in sized)
-    rep.check('emit', 'size-suffixed variants embed the advertised name', ok, sized[0] if sized else oa, 'size-suffixed name not built from the advertised name')
+    # per-name renderer: emits for every non-empty name, with the original name (interpretation model shared with C02 / C03 / C15)
+    from props import _renderer
+    _renderer.verify(repo, rep, ['emit'], {'emit': 'emit'})
